@@ -77,12 +77,12 @@ def run(ctx: Ctx):
     here = os.path.dirname(os.path.abspath(__file__))
     trees = []
     cat = specgen.catalogue_specs()
-    for i in ([0, 3, 5] if not ctx.thorough else range(len(cat))):
+    for i in ([0, 3, 5] if not (ctx.tier == "thorough") else range(len(cat))):
         trees.append((f"catalogue-{i}", cat[i][2], []))
-    for i in range(6 if not ctx.thorough else 40):
+    for i in range(6 if not (ctx.tier == "thorough") else 40):
         files, names = collision_tree(rng, rng.randrange(1, 4))
         trees.append((f"collide-{i}-{'-'.join(names)}", files, names))
-    for i in range(2 if not ctx.thorough else 20):
+    for i in range(2 if not (ctx.tier == "thorough") else 20):
         trees.append((f"random-{i}", specgen.random_spec(rng, size=3), []))
     n_cmp = n_tree = 0
     opaque_report = {}
@@ -104,7 +104,7 @@ def run(ctx: Ctx):
             firsts = ["-", "eolib.protocol.net.client", "eolib.data.eo_reader", "eolib.packet", "eolib.protocol"]
             if gen_mods:
                 firsts.append(rng.choice(gen_mods))
-            if not ctx.thorough:
+            if not (ctx.tier == "thorough"):
                 firsts = ["-"] + rng.sample(firsts[1:], 2)
             types_ = genprops.declared_types(case.files)
             for first in firsts:
